@@ -74,10 +74,39 @@ def fresh(p, entry):
     return problem
 
 
-def usable(problem, n0, before0, cids=None):
+def direct_random(problem, seed):
+    import numpy as np
+    import dnachisel as dc
+    np.random.seed(seed)
+    try:
+        problem.resolve_constraints_by_random_mutations()
+        return "solved"
+    except dc.NoSolutionError:
+        return "nosolution"
+
+
+def usable(problem, n0, before0, cids=None, twin=None):
     """None if the problem is usable, else a description"""
     import dnachisel as dc
     s = problem.sequence
+    if twin is not None and any(getattr(c, "is_focus", False) for c in problem.constraints):
+        # solver bookkeeping survived the abort: does the problem still solve like a pristine twin
+        # brought to the same sequence (same seed, same settings)?
+        for seed in (0, 1, 2):
+            try:
+                t = twin()
+                t.sequence = s
+                o2 = direct_random(t, seed)
+                o1 = direct_random(problem, seed)
+            except core.Timeout:
+                raise
+            except Exception:  # noqa
+                break
+            finally:
+                problem.sequence = s
+            if o1 == "nosolution" and o2 == "solved":
+                return ("the problem cannot be solved again: a focus mark left on one of its constraints makes the direct "
+                        "random search (seed %d) fail where a pristine twin in the same state succeeds" % seed)
     if cids is not None and [id(c) for c in problem.constraints] != cids:
         return "the problem's list of constraints was altered"
     if len(s) != n0:
@@ -145,7 +174,7 @@ def impl_case(case):
         return res
     if case[0] == "light":
         return res          # natural outcome only (restoration / usability after NoSolutionError)
-    budget = MAX_FAULTS[tier]
+    budget = MAX_FAULTS[tier] * (8 if case[0] == "selfloc" else 1)
     ks = list(range(1, n_evals + 1))
     if len(ks) > budget:
         step = len(ks) / float(budget)
@@ -170,7 +199,7 @@ def impl_case(case):
         res["faults"] += 1
         if pr.sequence != start:
             res["moved"] += 1
-        why = usable(pr, n0, before0, pr_cids)
+        why = usable(pr, n0, before0, pr_cids, twin=lambda: fresh(p, entry))
         if why:
             res["bad"] = (k, why)
             return res
@@ -228,6 +257,25 @@ def gen_cases(rng, tier):
             p = c06.gen_small(rng)
             entry = rng.choice(["resolve_exhaustive", "resolve_random", "optimize_exhaustive", "optimize_random"])
         cases.append(("run", json.dumps(p, sort_keys=True), entry, tier))
+    # several failing user constraints that localize to themselves (default localized()), generous random
+    # search: an abort must not leave solver bookkeeping on the problem's own constraints
+    for _ in range(max(6, N // 6)):
+        n = rng.choice([24, 30, 36])
+        words = rng.sample(["AA", "GG", "TAT", "CG", "ACA", "TTG"], rng.choice([2, 3]))
+        s_ = list(problems.rdna(rng, n, 0.5))
+        third = n // len(words)
+        for j, w in enumerate(words):
+            i = j * third + rng.randint(0, third - len(w))
+            s_[i:i + len(w)] = w
+        cs = [("ForbidWord", problems.kw(word=w, location=None)) for w in words]
+        cs.append(rng.choice([("AvoidPattern", problems.kw(pattern="GAATTC", location=None)),
+                              ("EnforceGCContent", problems.kw(mini=0.05, maxi=0.95, location=None)),
+                              ("ForbidWord", problems.kw(word="CCCCC", location=None))]))
+        rng.shuffle(cs)
+        p = dict(seq="".join(s_), constraints=tuple(cs), objectives=(), np_seed=rng.randint(0, 10**6),
+                 cfg=dict(threshold=rng.choice([50, 10000]), max_iters=3000, mutations=rng.choice([1, 2]),
+                          extensions=rng.choice([(0, 5), (0,)]), stagnation=None))
+        cases.append(("selfloc", json.dumps(p, sort_keys=True), "resolve", tier))
     # natural failures of the direct searches on edited problems (no fault injection: cheap, many)
     for _ in range(5 * N):
         p = c06.gen_small(rng)
